@@ -50,6 +50,11 @@ def queries(tier):
                       defs={"FAM": fam, "LS_MAX": 700 if fam == 4 else 200}, shape={"family": name}, unwind=300, timeout=1200)
             q.asm_parts = parts
             qs.append(q)
+            if fam == 5 and be == "c64":
+                for malg, an in ((1, "masked128a"), (2, "masked80pq")):
+                    q2 = Query("const_args:%s:%s" % (an, be), "harness/C16/const_args.c", repo_srcs=MASKED_AEAD_SRCS[malg] + MASKED_COMMON + [MASKED_WORD[be]], extra_srcs=extra, backend=be, form="T",
+                               defs={"FAM": 5, "MALG": malg, "LS_MAX": 200}, shape={"family": an}, unwind=300, timeout=1200)
+                    qs.append(q2)
     try:
         from checks import cpp_ir
         qs += cpp_ir.c16_queries(tier)
